@@ -1,4 +1,5 @@
 import CvProps.C14Lemmas
+import CvProps.C14b
 /-!
 # C14 — multiple-walker sharing combines every walker's data exactly once
 
